@@ -117,6 +117,63 @@ def fit_targets(done, boost):
                    replace=['early_stopping_done', 'result_update3', 'result_update4', 'result_done'], cbmc_flags=['--object-bits', '9'])]
 
 
+# ------------------------------------------------------------------------------------------------ gboost_model_t::fit
+WL = r'std::unique_ptr<nano::wlearner_t'
+MTYPES = [(r'::difference_type$', 'int64_t'), (r'__normal_iterator<\s*(const )?' + WL + r'|^std::vector<' + WL + r'.*>::(const_)?iterator$', 'struct nv_it'),
+          (r'^(nano::)?ml::result_t$', 'struct nv_mlresult'), (r'^nano::gboost::result_t$', 'struct nv_fold_result'), (r'^std::any$', 'struct nv_any'),
+          (T2, 'struct nv_tensor2d'), (IX, 'struct nv_indices'),
+          (r'^nano::indices_cmap_t$|^nano::tensor_t<nano::tensor_carray_storage_t, long, 1', 'struct nv_indices'),
+          (r'^nano::(tensor1d_t|vector_t)$|^nano::tensor_t<nano::tensor_vector_storage_t, double, 1', 'struct nv_bias'),
+          (r'^Eigen::(MatrixBase<)?Eigen::Map<(const )?Eigen::Matrix<double, -1, 1|^Eigen::Map<(const )?Eigen::Matrix<double, -1, 1', 'struct nv_biasv'),
+          (r'^nano::tensor4d_t$|^nano::tensor_t<nano::tensor_vector_storage_t, double, 4', 'struct nv_outputs'),
+          (r'^nano::targets_iterator_t$', 'struct nv_titer'),
+          (r'^nano::rwlearners_t$|^std::vector<' + WL, 'struct nv_wlist'), (r'^nano::rwlearner_t$|^' + WL + r'|^nano::wlearner_t$', 'struct nv_wl'),
+          (r'^nano::tensor_t<nano::tensor_(c|m)(map|array)_storage_t, double, 1', 'struct nv_row')]
+MOPAQUE = [r'^nano::(dataset_t|loss_t|logger_t|param_spaces_t)$', r'^(nano::)?ml::params_t$', r'^std::vector<nano::param_space_t', r'^nano::tensor_t<', r'^Eigen::',
+           r'^std::array<long', r'^nano::tensor_dims_t<', r'^nano::tensor_base_t<']
+MCALLS = [(r'^tune\|', 'nv_tune({&1})!'), (r'^arange\|', 'nv_arange({0}, {1})'), (r'^evaluate\|', 'nv_evaluate({&0}, {&2}, {&3})'),
+          (r'^ctor\|nano::tensor_t<nano::tensor_vector_storage_t, double, 2>\|void \((int|long), (int|long)\)', 'nv_t2_make({0}, {1})'),
+          (r'^ctor\|nano::tensor_t<nano::tensor_carray_storage_t, long, 1>\|void \(const tensor_t<nano::tensor_vector_storage_t, long, 1', '{0}'),
+          (r'^ctor\|nano::targets_iterator_t\|', 'nv_titer_make({&1})'),
+          (r'^make_full_tensor\|', 'nv_bias_full({1})'), (r'^operator=\|.*\|nano::tensor_t<nano::tensor_vector_storage_t, double, 1>\|#2', '({0} = {1})'),
+          (r'^any_cast\|', 'nv_any_cast({0})'), (r'^operator\+=\|.*\|Eigen::MatrixBase<Eigen::Map<Eigen::Matrix<double, -1, 1', 'nv_biasv_add({0}, {1})'),
+          (r'^operator\*=\|.*\|Eigen::(Dense|Matrix)Base<Eigen::Map<Eigen::Matrix<double, -1, 1', 'nv_biasv_scale({0}, {1})'),
+          (r'^for_each\|', 'nv_for_each_clone({0}, {1}, self)'), (r'^merge\|', 'nv_wlist_merge({&0})'), (r'^make_vector\|', 'nv_vec1_make({0})'),
+          (r'^operator!=\|.*__normal_iterator', '({0}.pos != {1}.pos)'), (r'^operator\+\+\|.*__normal_iterator', '(++{0}.pos)'),
+          (r'^operator\*\|.*__normal_iterator', '(*nv_it_deref({0}))'), (r'^operator\+\|.*__normal_iterator', 'nv_it_plus({0}, {1})'), (r'^operator->\|.*unique_ptr', '(&{0})'),
+          (r'^selected\|', 'model_selected'), (r'^move\|', '{0}')]
+MMEMBERS = [(r'^empty\|std::vector<' + WL, 'nv_vec_empty'), (r'^clear\|std::vector<' + WL, 'nv_wlist_clear'),
+            (r'^begin\|std::vector<' + WL, 'nv_wlist_begin'), (r'^end\|std::vector<' + WL, 'nv_wlist_end'),
+            (r'^emplace_back\|std::vector<' + WL, 'nv_wlist_push({self}, {0})'),
+            (r'^optimum_trial\|nano::ml::result_t', 'nv_mlresult_optimum'), (r'^folds\|nano::ml::result_t', 'nv_mlresult_folds'),
+            (r'^trials\|nano::ml::result_t', 'nv_mlresult_trials'), (r'^extra\|nano::ml::result_t\|#2', 'nv_extra'),
+            (r'^store\|nano::ml::result_t\|#2', 'nv_store_final({self}, {0})'),
+            (r'^vector\|nano::tensor_t<nano::tensor_vector_storage_t, double, 1', 'nv_bias_vector'),
+            (r'^clone\|nano::(clonable_t<nano::)?wlearner_t', 'nv_wl_clone'), (r'^scale\|nano::wlearner_t', 'nv_wl_scale'),
+            (r'^fit_dataset\|', 'nv_learner_fit_dataset({self})'), (r'^predict\|.*#2', 'nv_predict({self}, {1})'),
+            (r'^evaluate\|.*#3', 'nv_learner_evaluate({self}, {1})'),
+            (r'^size\|.*(indices_t|tensor_vector_storage_t, long, 1|tensor_base_t<long, 1)', 'nv_indices_size'),
+            (r'^log\|nano::ml::params_t', '@drop'), (r'^(batch|scaling)\|nano::targets_iterator_t', '@drop'),
+            (r'^tensor\|.*tensor_vector_storage_t, double, 2.*#1', 'nv_t2_row'),
+            (r'^indexed\|.*tensor_(c|m)(map|array)_storage_t, double, 1', 'nv_row_indexed({*self}, {&0}, {1})')]
+
+
+def average_fns():
+    import hooks
+    kw = dict(types=MTYPES, calls=MCALLS, members=MMEMBERS, opaque=MOPAQUE, hooks=[hooks.param_hook()], self_struct='struct nv_gmodel')
+    M = 'src/gboost/model.cpp'
+    return dict(fit=Fn('gmodel_fit', M, 'fit', flt='gboost_model_t::fit', select=NPARAMS(4), ret='struct nv_mlresult', **kw),
+                clone=Fn('gmodel_fit_clone', M, 'fit', flt='gboost_model_t::fit', select=NPARAMS(4), lambda_index=1, captures=True, **kw),
+                selected=Fn('model_selected', M, 'selected', flt='selected', **dict(kw, self_struct=None)))
+
+
+def average_targets():
+    A = 'specs/C11/average.h'
+    f = average_fns()
+    return [Target('gmodel_fit_clone', [average_fns()['clone']], A),
+            Target('gmodel_fit', [f['fit'], f['clone'], f['selected']], A, replace=['gmodel_fit_clone'])]
+
+
 def done_fn():
     return Fn('early_stopping_done', 'src/gboost/early_stopping.cpp', 'done', flt='early_stopping_t::done',
               self_struct='struct nv_early_stopping', types=TYPES,
@@ -128,6 +185,7 @@ def build(tier):
     targets = [Target('early_stopping_done', [done_fn()], 'specs/C11/early_stopping.h')]
     targets += boost_targets()
     targets += fit_targets(done_fn(), [f() for f in boost_fns()])
+    targets += average_targets()
     return {
         'targets': targets, 'vcs': [],
         'decided': ['early-stopping monitor transition = specification, for every observation and prior state'],
